@@ -384,6 +384,7 @@ func (s *Sim) Alive() []string {
 }
 
 const idleHorizon = 6 * time.Hour
+const drainHorizon = 5 * time.Hour
 
 func (s *Sim) loop() (rep Report) {
 	idle := time.Duration(0)
@@ -421,8 +422,18 @@ func (s *Sim) loop() (rep Report) {
 		if len(R) == 0 {
 			R = held
 		}
-		if len(R) == 0 {
-			R = drainers
+		if len(R) == 0 && len(drainers) > 0 {
+			// A drainer runs when nothing else can. Engine goroutines that are blocked rather
+			// than parked may only be sleeping on the fake clock: let time pass first.
+			blocked := 0
+			for _, t := range s.tasks {
+				if !t.parked && !t.Client {
+					blocked++
+				}
+			}
+			if blocked == 0 || idle >= drainHorizon {
+				R = drainers
+			}
 		}
 		if len(R) == 0 {
 			if s.mainDone {
